@@ -46,11 +46,13 @@ const (
 	cvEnum
 	cvList
 	cvObj
+	cvBig // an integer above the int64 range: CV.U
 )
 
 type CV struct {
 	K    cvKind
 	I    int64
+	U    uint64
 	F    float64
 	S    string
 	B    bool
@@ -75,12 +77,17 @@ func cvO(kv ...interface{}) CV {
 
 var cvNul = CV{K: cvNull}
 
+// cvU is an integer above the int64 range (only Go's unsigned kinds and JSON numbers can carry it).
+func cvU(u uint64) CV { return CV{K: cvBig, U: u} }
+
 func (v CV) Literal() string {
 	switch v.K {
 	case cvNull:
 		return "null"
 	case cvInt:
 		return strconv.FormatInt(v.I, 10)
+	case cvBig:
+		return strconv.FormatUint(v.U, 10)
 	case cvFloat:
 		if v.Text != "" {
 			return v.Text
@@ -122,6 +129,8 @@ func (v CV) JSON() interface{} {
 	switch v.K {
 	case cvInt:
 		return float64(v.I)
+	case cvBig:
+		return float64(v.U)
 	case cvFloat:
 		return v.F
 	case cvStr, cvEnum:
@@ -169,6 +178,17 @@ func (v CV) Native(kind int) (interface{}, bool) {
 			if v.I >= math.MinInt16 && v.I <= math.MaxInt16 {
 				return int16(v.I), true
 			}
+		case 6:
+			if v.I >= 0 {
+				return uint(v.I), true
+			}
+		}
+	case cvBig:
+		switch kind {
+		case 3:
+			return v.U, true
+		case 6:
+			return uint(v.U), true
 		}
 	case cvFloat:
 		switch kind {
@@ -294,9 +314,11 @@ func mustFail(t *world.T, v CV) bool {
 		case cvFloat:
 			return v.F != math.Trunc(v.F) || v.F > math.MaxInt32 || v.F < math.MinInt32
 		}
-		return true
+		return true // includes cvBig
 	case "Int64":
 		switch v.K {
+		case cvBig:
+			return true // above the int64 range
 		case cvInt:
 			return false
 		case cvFloat:
@@ -312,9 +334,9 @@ func mustFail(t *world.T, v CV) bool {
 			_, err := strconv.ParseFloat(v.S, 64)
 			return err != nil
 		}
-		return v.K != cvInt && v.K != cvFloat
+		return v.K != cvInt && v.K != cvFloat && v.K != cvBig
 	case "Float":
-		return v.K != cvInt && v.K != cvFloat
+		return v.K != cvInt && v.K != cvFloat && v.K != cvBig
 	case "String":
 		return v.K == cvList || v.K == cvObj
 	case "ID":
@@ -455,6 +477,8 @@ func conform(t *world.T, v CV, d interface{}) string {
 		switch v.K {
 		case cvInt:
 			cf = float64(v.I)
+		case cvBig:
+			cf = float64(v.U)
 		case cvFloat:
 			cf = v.F
 		case cvStr:
@@ -485,6 +509,12 @@ func conform(t *world.T, v CV, d interface{}) string {
 			if n, ok := asInt64(d); ok && float64(n) == cf {
 				return ""
 			}
+			if u, ok := d.(uint64); ok && float64(u) == cf {
+				return ""
+			}
+			if u, ok := d.(uint); ok && float64(u) == cf {
+				return ""
+			}
 			return fmt.Sprintf("Float argument arrived as %T(%v)", d, d)
 		}
 		return ""
@@ -501,6 +531,10 @@ func conform(t *world.T, v CV, d interface{}) string {
 		case cvInt:
 			if s != strconv.FormatInt(v.I, 10) {
 				return fmt.Sprintf("client wrote %d, resolver got %q", v.I, s)
+			}
+		case cvBig:
+			if t.Name == "ID" && s != strconv.FormatUint(v.U, 10) && s != strconv.FormatFloat(float64(v.U), 'g', -1, 64) && s != strconv.FormatFloat(float64(v.U), 'f', -1, 64) {
+				return fmt.Sprintf("client wrote %d, resolver got %q", v.U, s)
 			}
 		}
 		return ""
@@ -581,6 +615,7 @@ func conform(t *world.T, v CV, d interface{}) string {
 func c04Scalars() []CV {
 	return []CV{
 		cvNul, cvI(0), cvI(1), cvI(-1), cvI(math.MaxInt32), cvI(math.MaxInt32 + 1), cvI(math.MinInt32), cvI(math.MinInt32 - 1), cvI(4294967297), cvI(9007199254740993),
+		cvU(math.MaxUint64), cvU(math.MaxUint64 - 6), cvU(1 << 63), // wrap to -1, -7 and MinInt64 when narrowed through int64
 		cvF(1.5), cvF(2.0), cvF(0.1), {K: cvFloat, F: 1e40, Text: "1e40"}, cvF(-2147483649.0),
 		cvS("a"), cvS("12"), cvS(""), cvS("RED"), cvB(true), cvB(false), cvE("RED"), cvE("PURPLE"),
 	}
@@ -640,6 +675,29 @@ func validLit(t *world.T) string {
 		return "BLUE"
 	}
 	return "{req: 77}"
+}
+
+// validJSON: a valid variable value for t as a JSON decoder would deliver it, different from anything in the menu.
+func validJSON(t *world.T) interface{} {
+	switch t.K {
+	case world.TNonNull:
+		return validJSON(t.Of)
+	case world.TList:
+		return []interface{}{validJSON(t.Of)}
+	}
+	switch t.Name {
+	case "Int", "Int64":
+		return float64(77)
+	case "Float", "Float64":
+		return 77.5
+	case "String", "ID":
+		return "dd"
+	case "Boolean":
+		return false
+	case "E":
+		return "BLUE"
+	}
+	return map[string]interface{}{"req": float64(77)}
 }
 
 // ---- recording back ends
@@ -733,6 +791,8 @@ func valueClass(v CV) string {
 	switch v.K {
 	case cvNull:
 		return "null"
+	case cvBig:
+		return "int-above-int64"
 	case cvInt:
 		if !inInt32(v.I) {
 			return "int-out-of-32-bits"
@@ -782,25 +842,31 @@ func runC04(c *core.Ctx) {
 					query string
 					vars  map[string]interface{}
 					ok    bool
+					vt    *world.T // declared type of $v (prepared twins need a valid warm-up value of it); nil = no twin
+					prep  bool     // resolve the parsed executable once with a valid warm-up value first, then with vars
 				}
 				var dels []delivery
 				lit := v.Literal()
-				dels = append(dels, delivery{"literal", fmt.Sprintf("{ %s(x: %s) }", field, lit), nil, true})
+				dels = append(dels, delivery{"literal", fmt.Sprintf("{ %s(x: %s) }", field, lit), nil, true, nil, false})
 				hasEnumLit := strings.Contains(lit, "RED") || strings.Contains(lit, "PURPLE")
 				_ = hasEnumLit
-				dels = append(dels, delivery{"variable-json", fmt.Sprintf("query Q($v: %s) { %s(x: $v) }", t, field), map[string]interface{}{"v": v.JSON()}, v.K != cvNull})
-				for kind := 0; kind < 6; kind++ {
+				dels = append(dels, delivery{"variable-json", fmt.Sprintf("query Q($v: %s) { %s(x: $v) }", t, field), map[string]interface{}{"v": v.JSON()}, v.K != cvNull, t, false})
+				for kind := 0; kind < 7; kind++ {
 					if nv, ok := v.Native(kind); ok {
-						dels = append(dels, delivery{fmt.Sprintf("variable-native-%T", nativeLeaf(nv)), fmt.Sprintf("query Q($v: %s) { %s(x: $v) }", t, field), map[string]interface{}{"v": nv}, true})
+						dels = append(dels, delivery{fmt.Sprintf("variable-native-%T", nativeLeaf(nv)), fmt.Sprintf("query Q($v: %s) { %s(x: $v) }", t, field), map[string]interface{}{"v": nv}, true, nil, false})
 					}
 				}
 				if v.K != cvNull {
-					dels = append(dels, delivery{"variable-default", fmt.Sprintf("query Q($v: %s = %s) { %s(x: $v) }", t, lit, field), nil, true})
-					dels = append(dels, delivery{"variable-over-default", fmt.Sprintf("query Q($v: %s = %s) { %s(x: $v) }", t, validLit(t), field), map[string]interface{}{"v": v.JSON()}, true})
+					dels = append(dels, delivery{"variable-default", fmt.Sprintf("query Q($v: %s = %s) { %s(x: $v) }", t, lit, field), nil, true, nil, false})
+					dels = append(dels, delivery{"variable-over-default", fmt.Sprintf("query Q($v: %s = %s) { %s(x: $v) }", t, validLit(t), field), map[string]interface{}{"v": v.JSON()}, true, t, false})
 				}
 				// variable nested in a list literal: [T...] with a one-element client list
 				if lt := stripNN(t); lt.K == world.TList && v.K == cvList && len(v.L) == 1 && v.L[0].K != cvNull {
-					dels = append(dels, delivery{"variable-in-list-literal", fmt.Sprintf("query Q($v: %s) { %s(x: [$v]) }", lt.Of, field), map[string]interface{}{"v": v.L[0].JSON()}, true})
+					dels = append(dels, delivery{"variable-in-list-literal", fmt.Sprintf("query Q($v: %s) { %s(x: [$v]) }", lt.Of, field), map[string]interface{}{"v": v.L[0].JSON()}, true, lt.Of, false})
+					// two levels down: [[$v]]
+					if it := stripNN(lt.Of); it.K == world.TList && v.L[0].K == cvList && len(v.L[0].L) == 1 && v.L[0].L[0].K != cvNull {
+						dels = append(dels, delivery{"variable-in-list-of-list-literal", fmt.Sprintf("query Q($v: %s) { %s(x: [[$v]]) }", it.Of, field), map[string]interface{}{"v": v.L[0].L[0].JSON()}, true, it.Of, false})
+					}
 				}
 				// variable nested in an input-object literal
 				if bt := stripNN(t); bt.K == world.TNamed && bt.Name == "I" && v.K == cvObj {
@@ -813,18 +879,63 @@ func runC04(c *core.Ctx) {
 						}
 						rl := rest.Literal()
 						rl = "{req: $v" + map[bool]string{true: ", ", false: ""}[len(rest.O) > 0] + rl[1:]
-						dels = append(dels, delivery{"variable-in-object-literal", fmt.Sprintf("query Q($v: Int!) { %s(x: %s) }", field, rl), map[string]interface{}{"v": rv.JSON()}, true})
+						dels = append(dels, delivery{"variable-in-object-literal", fmt.Sprintf("query Q($v: Int!) { %s(x: %s) }", field, rl), map[string]interface{}{"v": rv.JSON()}, true, world.NN(world.N("Int")), false})
+					}
+					// two levels down: {nested: {req: $v}} and {list: [$v, ...]}
+					if nv, has := v.O["nested"]; has && nv.K == cvObj {
+						if rv, has := nv.O["req"]; has && rv.K != cvNull {
+							inner := CV{K: cvObj, O: map[string]CV{}}
+							for k, e := range nv.O {
+								if k != "req" {
+									inner.O[k] = e
+								}
+							}
+							il := inner.Literal()
+							il = "{req: $v" + map[bool]string{true: ", ", false: ""}[len(inner.O) > 0] + il[1:]
+							outer := CV{K: cvObj, O: map[string]CV{}}
+							for k, e := range v.O {
+								if k != "nested" {
+									outer.O[k] = e
+								}
+							}
+							ol := outer.Literal()
+							ol = "{nested: " + il + map[bool]string{true: ", ", false: ""}[len(outer.O) > 0] + ol[1:]
+							dels = append(dels, delivery{"variable-in-nested-object-literal", fmt.Sprintf("query Q($v: Int!) { %s(x: %s) }", field, ol), map[string]interface{}{"v": rv.JSON()}, true, world.NN(world.N("Int")), false})
+						}
+					}
+					if lv, has := v.O["list"]; has && lv.K == cvList && len(lv.L) > 0 && lv.L[0].K != cvNull {
+						parts := []string{"$v"}
+						for _, e := range lv.L[1:] {
+							parts = append(parts, e.Literal())
+						}
+						outer := CV{K: cvObj, O: map[string]CV{}}
+						for k, e := range v.O {
+							if k != "list" {
+								outer.O[k] = e
+							}
+						}
+						ol := outer.Literal()
+						ol = "{list: [" + strings.Join(parts, ", ") + "]" + map[bool]string{true: ", ", false: ""}[len(outer.O) > 0] + ol[1:]
+						dels = append(dels, delivery{"variable-in-list-in-object-literal", fmt.Sprintf("query Q($v: Int!) { %s(x: %s) }", field, ol), map[string]interface{}{"v": lv.L[0].JSON()}, true, world.NN(world.N("Int")), false})
 					}
 				}
 				// a variable declared with the nullable version of the type, left unset or set to null, used where the
 				// argument type is T: ggql does not validate variable usage, so only coercion at the argument can refuse it
 				if v.K == cvNull {
-					dels = append(dels, delivery{"variable-unset-declared-nullable", fmt.Sprintf("query Q($v: %s) { %s(x: $v) }", stripNN(t), field), nil, true})
-					dels = append(dels, delivery{"variable-null-declared-nullable", fmt.Sprintf("query Q($v: %s) { %s(x: $v) }", stripNN(t), field), map[string]interface{}{"v": nil}, true})
+					dels = append(dels, delivery{"variable-unset-declared-nullable", fmt.Sprintf("query Q($v: %s) { %s(x: $v) }", stripNN(t), field), nil, true, nil, false})
+					dels = append(dels, delivery{"variable-null-declared-nullable", fmt.Sprintf("query Q($v: %s) { %s(x: $v) }", stripNN(t), field), map[string]interface{}{"v": nil}, true, stripNN(t), false})
 				}
 				// an unset variable as the null element of a list literal
 				if lt := stripNN(t); lt.K == world.TList && v.K == cvList && len(v.L) == 2 && v.L[1].K == cvNull && v.L[0].K != cvNull && v.L[0].K != cvList && v.L[0].K != cvObj {
-					dels = append(dels, delivery{"unset-variable-in-list-literal", fmt.Sprintf("query Q($v: %s) { %s(x: [%s, $v]) }", stripNN(lt.Of), field, v.L[0].Literal()), nil, true})
+					dels = append(dels, delivery{"unset-variable-in-list-literal", fmt.Sprintf("query Q($v: %s) { %s(x: [%s, $v]) }", stripNN(lt.Of), field, v.L[0].Literal()), nil, true, stripNN(lt.Of), false})
+				}
+				// prepared twins: the same request as a parsed executable that was already resolved once with a valid value
+				for _, dl := range append([]delivery{}, dels...) {
+					if dl.vt != nil && dl.ok {
+						dl.prep = true
+						dl.name = "prepared+" + dl.name
+						dels = append(dels, dl)
+					}
 				}
 				mf := mustFail(t, v)
 				for _, dl := range dels {
@@ -847,7 +958,26 @@ func runC04(c *core.Ctx) {
 						var res map[string]interface{}
 						varsCopy := deepCopy(dl.vars)
 						vm, _ := varsCopy.(map[string]interface{})
-						pi := core.Safe(func() { res = root.ResolveString(dl.query, "", vm) })
+						pi := core.Safe(func() {
+							if !dl.prep {
+								res = root.ResolveString(dl.query, "", vm)
+								return
+							}
+							exe, perr := root.ParseExecutableString(dl.query)
+							if perr != nil {
+								res = map[string]interface{}{"errors": ggql.FormErrorsResult(perr)}
+								return
+							}
+							_, _ = root.ResolveExecutable(exe, "", map[string]interface{}{"v": validJSON(dl.vt)})
+							rec.invoked, rec.args = 0, nil
+							var rerr error
+							if res, rerr = root.ResolveExecutable(exe, "", vm); res == nil {
+								res = map[string]interface{}{"data": nil}
+							}
+							if rerr != nil {
+								res["errors"] = ggql.FormErrorsResult(rerr)
+							}
+						})
 						cs := c04Case{Type: t.String(), Value: lit, Delivery: dl.name, Strategy: st.String(), Query: dl.query, Vars: fmt.Sprintf("%#v", dl.vars)}
 						attrs := map[string]string{"base": base, "wrapper": fmt.Sprint(w), "value": valueClass(v), "delivery": dl.name}
 						if pi != nil {
